@@ -1,6 +1,7 @@
 package file
 
 import (
+	"encoding/asn1"
 	"encoding/pem"
 	"strings"
 )
@@ -10,7 +11,15 @@ var UnknownPEMData = Info{Description: "unknown PEM data"}
 func parsePEMBlock(b *pem.Block) Info {
 	switch strings.ToUpper(b.Type) {
 	case "CERTIFICATE", "TRUSTED CERTIFICATE":
-		if info, err := parseCertificate(b.Bytes); err != nil {
+		der := b.Bytes
+		if strings.ToUpper(b.Type) == "TRUSTED CERTIFICATE" {
+			// OpenSSL appends its trust settings (a second DER element) to the certificate
+			var first asn1.RawValue
+			if rest, err := asn1.Unmarshal(der, &first); err == nil && len(rest) > 0 {
+				der = first.FullBytes
+			}
+		}
+		if info, err := parseCertificate(der); err != nil {
 			return UnknownPEMData
 		} else {
 			return info
